@@ -59,6 +59,11 @@ namespace trompeloeil {
     noexcept;
 
     void
+    add_retired(
+      sequence_matcher *m)
+    noexcept;
+
+    void
     validate_match(
       severity s,
       sequence_matcher const *matcher,
@@ -69,6 +74,7 @@ namespace trompeloeil {
 
   private:
     list<sequence_matcher> matchers{};
+    list<sequence_matcher> retired{};
   };
 
   class sequence
@@ -112,7 +118,7 @@ namespace trompeloeil {
       location loc)
     const
     {
-      seq.validate_match(s, this, seq_name, match_name, loc);
+      if (!orphaned) seq.validate_match(s, this, seq_name, match_name, loc);
     }
 
     unsigned
@@ -120,7 +126,7 @@ namespace trompeloeil {
     const
     noexcept
     {
-      return seq.cost(this);
+      return orphaned ? 0U : seq.cost(this);
     }
 
     bool
@@ -138,13 +144,22 @@ namespace trompeloeil {
     noexcept
     {
       this->unlink();
+      if (!orphaned) seq.add_retired(this);
+    }
+
+    void
+    orphan() // the sequence object is gone, it no longer constrains anything
+    noexcept
+    {
+      this->unlink();
+      orphaned = true;
     }
 
     void
     retire_predecessors()
     noexcept
     {
-      seq.retire_until(this);
+      if (!orphaned) seq.retire_until(this);
     }
 
     void
@@ -167,6 +182,7 @@ namespace trompeloeil {
     location    exp_loc;
     const sequence_handler_base& sequence_handler;
     sequence_type& seq;
+    bool orphaned = false;
   };
 
   inline
@@ -286,6 +302,10 @@ namespace trompeloeil {
   inline
   sequence_type::~sequence_type()
   {
+    while (!retired.empty())
+    {
+      retired.begin()->orphan();
+    }
     bool touched = false;
     std::ostringstream os;
     while (!matchers.empty())
@@ -299,7 +319,7 @@ namespace trompeloeil {
       }
       os << "\n  missing ";
       m->print_expectation(os);
-      m->unlink();
+      m->orphan();
     }
     if (touched)
     {
@@ -315,6 +335,15 @@ namespace trompeloeil {
   noexcept
   {
     matchers.push_back(m);
+  }
+
+  inline
+  void
+  sequence_type::add_retired(
+    sequence_matcher *m)
+  noexcept
+  {
+    retired.push_back(m);
   }
 
   inline
